@@ -92,7 +92,7 @@ def known_case_patterns():
     return pats
 
 
-def corpus(tier, seed):
+def corpus(tier, seed, big=False):
     per_prop = 5 if tier == "quick" else 16
     pats = known_case_patterns()
     groups = []      # (owner, headers, prelude, mode, extra flags, [cases], unit params)
@@ -104,16 +104,28 @@ def corpus(tier, seed):
         except Exception:
             continue
         if not theirs: continue
-        first = theirs[0].config.name
+        # take the owner's instances from one of its C++14 configurations when it has one: owners place C++17-only forms
+        # (explicit-output einsum, boolean right-hand sides) in C++17 units only, and a C++14-valid instance is valid under C++17
+        plain = [u for u in theirs if not u.config.macros]
+        c14 = [u for u in plain if u.config.std == "c++14"]
+        first = (c14 or plain or theirs)[0].config.name
         pool = [u for u in theirs if u.config.name == first and not u.config.macros]
-        r = random.Random("%s/c06pick/%s" % (seed, name))
+        r = random.Random("%s/c06pick/%s/%s" % (seed, name, big))
         r.shuffle(pool)
+        if big:     # prefer the units holding the largest instances
+            pool.sort(key=lambda u: -max(c.size for c in u.cases))
+            pool = pool[:max(2, len(pool) // 4)]
+            r.shuffle(pool)
         # all entries of an owner come from ONE of its units (one prelude, one translation unit per configuration);
         # the thorough tier takes a second unit for variety
         got_units = 0
         for u in pool:
             if got_units >= (1 if tier == "quick" else 2): break
             cand = list(u.cases); r.shuffle(cand)
+            if big:     # macro axes (block sizes, ...) only bite on instances large enough to reach the blocked kernels
+                cand.sort(key=lambda c: -c.size)
+                cand = cand[:max(per_prop, len(cand) // 3)]
+                r.shuffle(cand)
             take = []
             for c in cand:
                 if any(re.search(p, c.id) for p in pats): _excluded["n"] += 1; continue
@@ -140,6 +152,7 @@ def probe_ok(cfg):
 def plan(tier, seed, rng):
     base, mac = configs(tier, seed)
     groups = corpus(tier, seed)
+    big_groups = corpus(tier, seed, big=True)
     probe_case = Case("probe/smoke", 'VF_CASE("probe/smoke", c06::probe)', dict(kind="acceptance probe"), size=0)
     units = []
     for cfg in base + mac:
@@ -148,7 +161,7 @@ def plan(tier, seed, rng):
         units.append(pu)
         if cfg.macros and not probe_ok(cfg):
             continue          # Fastor.h itself is rejected: reported once through the probe unit, the corpus is skipped
-        for g in groups:
+        for g in (big_groups if cfg.macros else groups):
             if cfg.macros and cfg.macros[0] == "FASTOR_DISPATCH_DIV_TO_MUL_EXPR" and g["owner"] in ("c02", "c09"):
                 continue
             if cfg.macros:
